@@ -64,6 +64,13 @@ RULE_DOC = {
     "C19-text": "as_str() / len() (what the wrappers serialize) decode the stored text for every tag byte and length word",
     "T1-tags": "tag bytes: writers, readers and the length decoding agree for every value",
     "R1-stale": "no pointer into the text survives a call that may free or move the buffer",
+    "C03-realloc": "every realloc call site asks for at least the current length",
+    "C13-realloc": "every realloc call site asks for at least the current length (shrinking never cuts the text)",
+    "C05-trynopanic": "no try_* entry point reaches the message panic",
+    "LENSLOT": "32-bit: the on-heap length slot exists for every capacity above MAX_LEN and is written whenever the length word is the sentinel",
+    "C09-presize": "decoding constructors pre-size with the number of input units (a lower bound of the length)",
+    "C10-ctor": "StaticBuffer / TextLen / Capacity values are built only behind their bound",
+    "C11-inplace": "Extend appends into the receiver's own buffer",
     "C05-errused": "no Result<_, ReserveError> is discarded",
     "C05-ownalloc": "nothing outside the heap-buffer module allocates directly",
     "C06-pair": "plain form = try form + the message panic",
@@ -81,10 +88,12 @@ def rules_C03(ctx):
     r_own.rule_U1(ctx, include_panic=False, rule="U1")
     r_layout.rule_layout_agreement(ctx)
     r_layout.rule_slot_decision(ctx)
+    r_layout.rule_len_slot(ctx)
     r_layout.rule_null_checks(ctx)
     # "no access outside the block": writes are sized by what reserve promised
     r_layout.rule_reserve_post(ctx, rule="C03-room")
     r_own.rule_stale_views(ctx)
+    r_moves.realloc_sites_keep_text(ctx, "C03-realloc")
     r_api.rule_ownership_primitives(ctx)
 
 
@@ -109,6 +118,7 @@ def rules_C05(ctx):
     # String / Vec / Box (which abort) outside the heap-buffer module
     r_reach.rule_C09_no_other_alloc(ctx, rule="C05-ownalloc")
     r_api.rule_errors_not_dropped(ctx)
+    r_api.rule_try_never_panics_on_alloc(ctx)
 
 
 def rules_C02(ctx):
@@ -116,6 +126,9 @@ def rules_C02(ctx):
     # uniqueness probes license in-place writes only if the counter equals the number of handles:
     # the counter-balance rules are necessary conditions of isolation
     ctx.take_ts(["R2", "R3", "P1", "DUP"])
+    # the other handles keep reading their text: the buffer is freed or moved only by its last owner
+    ctx.take_ts(["R-contract.dealloc", "R-contract.released-last", "R1"])
+    r_own.rule_stale_views(ctx)
     r_api.rule_api_surface(ctx)
     r_api.rule_mut_views(ctx)
     r_api.rule_witnesses(ctx)
@@ -129,6 +142,10 @@ def rules_C13(ctx):
     # "keeps the text": a shrink that fails has not touched the string
     ctx.take_ts(["R-erratomic", "R2"], fn_filter=lambda fn: "shrink" in fn)
     r_layout.rule_capacity_roots(ctx)
+    r_moves.realloc_sites_keep_text(ctx, "C13-realloc")
+    # an in-place shrink hands the allocator the size of the whole block (header, slot, text)
+    r_layout.rule_layout_agreement(ctx)
+    r_layout.rule_len_slot(ctx)
 
 
 def rules_C11(ctx):
@@ -140,6 +157,8 @@ def rules_C11(ctx):
     r_shrink.rule_realloc_lands(ctx, rule="C11-lands")
     # within capacity nothing allocates: the appends reach the allocator only through reserve
     r_growth.rule_growth_via_reserve(ctx, rule="C11-append")
+    # extend appends into the target's own buffer (adopting a piece's buffer drops the reserved one)
+    r_retain.rule_extend_inplace(ctx, rule="C11-inplace")
     # "owns its storage exclusively" is judged from the reference count: it has to equal the number of handles
     ctx.take_ts(["R2", "R3", "P1", "DUP"])
     # the public reserve / with_capacity / appends reach the storage layer's operation on every path
@@ -158,6 +177,7 @@ def rules_C18(ctx):
 def rules_C01(ctx):
     r_text.rule_T1(ctx)
     r_text.rule_len_words(ctx)
+    r_layout.rule_len_slot(ctx)
     ctx.take_ts(["R-contract.kind="])
     # writes go only to exclusively owned storage: otherwise an edit of one handle changes what the
     # handles sharing its buffer read back
@@ -186,6 +206,7 @@ def rules_C06(ctx):
     r_layout.rule_null_checks(ctx)
     # a refused size is an Err / the documented panic message - never an abort or another panic
     r_api.rule_pairing(ctx, rule="C06-pair")
+    r_layout.rule_len_slot(ctx)
 
 
 def rules_C07(ctx):
@@ -249,6 +270,11 @@ def rules_C20(ctx):
     # overflow-checked arithmetic on caller-supplied sizes panics in debug builds and wraps in
     # release builds: sizes only go through checked_* / saturating_* operations
     r_size.rule_size_taint(ctx, rule="C20-taint")
+    # the code that exists only on 32-bit targets (length slot, allocation limit) agrees with itself:
+    # the same operations behave the same on every pointer width only if it does
+    r_layout.rule_layout_agreement(ctx)
+    r_layout.rule_slot_decision(ctx)
+    r_layout.rule_len_slot(ctx)
 
 
 def rules_C08(ctx):
@@ -258,6 +284,10 @@ def rules_C08(ctx):
     ctx.take_ts(["P1", "DUP"])
     # dropping one copy leaves the other intact: only the last owner frees, after an acquire
     ctx.take_ts(["P3", "P5", "R-contract.dealloc", "R-contract.released-last", "R1", "R2", "R3"])
+    # the clone and the original read the same bytes for as long as they share: nothing writes to a
+    # shared buffer (or its length slot), and the counter is only touched atomically
+    ctx.take_ts(["P2", "P4", "R-contract.Modifiable", "R-contract.Unique", "R-contract.set_len", "R-contract.write"])
+    r_api.rule_atomics_syntactic(ctx)
 
 
 def rules_C09(ctx):
@@ -266,6 +296,7 @@ def rules_C09(ctx):
     r_growth.rule_reserve_amount(ctx)
     r_api.rule_wrappers_delegate(ctx, rule="C09-wrap", only=("try_push", "try_push_str", "try_insert", "try_insert_str", "try_with_capacity", "try_reserve"))
     r_layout.rule_capacity_roots(ctx)
+    r_deleg.rule_presize(ctx)
     # integers: the requested capacity is exactly the digit count (C14 proves digit count = text length)
     r_num.rule_into_repr(ctx)
 
@@ -279,6 +310,8 @@ def rules_C10(ctx):
     r_text.rule_len_words(ctx, rule="C10-lenword")
     # the first growing operation moves a static handle to storage that really has the room
     r_layout.rule_reserve_post(ctx)
+    # a borrowed length that does not fit the length word is refused, on every target
+    r_size.rule_checked_ctors(ctx, rule="C10-ctor")
 
 
 PROPS = {
